@@ -20,6 +20,7 @@ func init() {
 		Level: "exploration",
 		Rule: "generated pools (1-8 servers; weight classes zero/one/small/common-factor/prime/very-unequal/all-equal) reached through random prior histories of upsert/re-weight/remove; " +
 			"sequential: every window offset of >=3W selections compared with the exact count vector w_i/g; concurrent: K*W calls from P goroutines must give exactly K*w_i/g, and recorded call/return histories must linearize (porcupine) against the periodic sequence; " +
+			"the reference weights are the ones the last successful call per server asked for (ServerWeight must agree); a quarter of the pools are administered through a Rebalancer; drained (all-zero) pools must fail every selection, then serve again after a re-weight; handlers behind the balancer edit req.URL in place; every case runs under a watchdog (a blocked balancer call is a violation); " +
 			"non-trivial = pool with >=2 positive weights; distinct by (weight vector, prior history, access path)",
 		Assumptions: []string{"weights are read back with ServerWeight(); W capped at 20000 per pool", "porcupine v1.3.0 decides linearizability; Unknown (timeout) is inconclusive"},
 		Parts: []Part{
@@ -165,9 +166,12 @@ func c01BuildOpts(r *rand.Rand, next http.Handler, weights []int, histLen int, o
 				return nil, nil, nil, err
 			}
 		}
-		if err := rr.UpsertServer(urls[i], roundrobin.Weight(w)); err != nil {
+		// the caller hands over its own url.URL value and goes on using (re-using, editing) it afterwards
+		mine := *urls[i]
+		if err := rr.UpsertServer(&mine, roundrobin.Weight(w)); err != nil {
 			return nil, nil, nil, err
 		}
+		mine.Host, mine.Path = "scribbled-after-the-call.test", "/scribbled"
 		if r.IntN(4) == 0 { // a few selections between the final changes
 			_, _ = rr.NextServer()
 		}
